@@ -131,6 +131,29 @@ func ParseString(s string) (dep.Type, error) {
 	return dt, nil
 }
 
+// String returns a representation of the given type that is compatible with
+// ParseString. For any dt whose values can be written in that syntax (no '|',
+// which ends the type in a schema line), dt.Equal(Must(ParseString(String(dt)))).
+func String(dt dep.Type) string {
+	var ss []string
+	for _, key := range allKeys {
+		value, ok := dt.GetAttr(key)
+		if !ok {
+			continue
+		}
+		ss = append(ss, strings.ToLower(key.String()))
+		if flagKeys[key] {
+			continue
+		}
+		// Quote what would not survive the split into fields.
+		if f := strings.Fields(value); len(f) != 1 || f[0] != value || value[0] == '"' {
+			value = strconv.Quote(value)
+		}
+		ss = append(ss, value)
+	}
+	return strings.Join(ss, " ")
+}
+
 // Must returns the given dep type if the given error is nil, otherwise panics.
 func Must(dt dep.Type, err error) dep.Type {
 	if err != nil {
